@@ -2,7 +2,7 @@ SPECIFICATION Spec
 CONSTANTS
   Entries = {"set_dry", "get", "xml"}
   Nodes = {"container", "entry2", "leaf.string"}
-  PathShapes = {"exact", "unknown_last"}
+  PathShapes = {"exact", "unknown_last", "twice", "plus_keyless_before"}
   KeyShapes = {"ok", "one_missing"}
   ValKinds = {"string", "nil", "json_deep"}
   ListNodes = {"entry2"}
@@ -10,6 +10,9 @@ CONSTANTS
   ValuelessEntries = {"get"}
   TextEntries = {"xml"}
   TextVals = {"string"}
+  MultiEntries = {"set_dry", "get"}
+  CompoundPaths = {"twice", "plus_keyless_before"}
+  KeylessPaths = {"plus_keyless_before"}
 INVARIANT TypeOK
 PROPERTY AlwaysAnswered
 CHECK_DEADLOCK FALSE
